@@ -15,6 +15,7 @@ from .exprs import ExprMixin
 from .models import ModelMixin
 from .builtins_model import BuiltinMixin
 from .ma import MAMixin
+from .dyn import DynMixin
 
 BUILTIN_EXC_BASES = {
     "BaseException": None,
@@ -47,7 +48,7 @@ BUILTIN_EXC_BASES = {
 }
 
 
-class Engine(ExprMixin, ModelMixin, BuiltinMixin, MAMixin):
+class Engine(DynMixin, ExprMixin, ModelMixin, BuiltinMixin, MAMixin):
     def __init__(self, repo, contracts=None, loop_contracts=None, prop=None):
         self.repo = repo
         self.contracts = contracts or {}
